@@ -333,3 +333,56 @@ class E2ESurface(core.Surface):
 
     def nontrivial(self, x, i, m):
         return i[0] == "OK" and resgen.count_functions(x["template"]) >= 2
+
+
+def gen_typed_template(rng, resolvable=False, n=None):
+    """A template whose resources are instances of the live classes built by schemagen.Gen from gen_tables.schema_table():
+    every leaf kind of the schema (str, int, semi-strict bool, date, datetime, IPv4/IPv6 network incl. wide ones, base64 binary,
+    literal Type, nested property models, generic sub-objects, function objects in Resolvable positions) is drawn with every
+    spelling family.  resolvable=True keeps the template inside what resolve() can digest (functions only where a string is
+    expected).  Returns {"template", "extra", "leaves": per-leaf-kind counts of what was generated}."""
+    import schemagen
+    g = schemagen.Gen(rng, rich=True, resolvable=resolvable)
+    types = [ty for ty, _ in schemagen.table()["modelled"]]
+    resources = {}
+    for i in range(n or rng.randint(1, 4)):
+        ty = rng.choice(types) if rng.random() < 0.75 else rng.choice(["Custom::Thing", "AWS::SNS::Topic", "AWS::Lambda::Function"])
+        resources[f"R{i + 1}"] = g.resource((f"R{i + 1}",), 6, ty)
+    if not resolvable and rng.random() < 0.08:
+        # a function object in the place of a whole resource (Resolvable[AllResourcesType])
+        resources["RF"] = {"Fn::If": ["C1", {"Type": "Custom::A", "Properties": {}}, {"Type": "Custom::B", "Properties": {}}]}
+        g.bump("fn@resource")
+    t = {"Resources": resources,
+         "Parameters": {"P1": {"Type": "String", "Default": "pv"}},
+         "Conditions": {"C1": {"Fn::Equals": ["a", "a"]}},
+         "Mappings": {"M": {"k1": {"s": "v"}}}}
+    if rng.random() < 0.7:
+        t["AWSTemplateFormatVersion"] = rng.choice(["2010-09-09", "2010-09-09", "2012-10-17"])
+        g.bump("date")
+    if rng.random() < 0.4:
+        t["Description"] = rng.choice(["d", "", "é中"])
+        g.bump("str")
+    if rng.random() < 0.3:
+        t["Metadata"] = {"AWS::CloudFormation::Interface": {"ParameterGroups": [{"Label": {"default": "x"}}]}, "n": 1}
+        g.bump("any")
+    if rng.random() < 0.3:
+        t["Outputs"] = {"O1": {"Value": "x", "Export": {"Name": "n"}, "Description": "d"}}
+        g.bump("dict")
+    if rng.random() < 0.3:
+        t["Transform"] = rng.choice(["AWS::Serverless-2016-10-31", ["AWS::Serverless-2016-10-31", "AWS::Include"]])
+    if rng.random() < 0.2:
+        t["Rules"] = {"r": {"Assertions": [{"Assert": {"Fn::Equals": ["a", "a"]}}]}}
+    if rng.random() < 0.4:
+        p = {"Type": rng.choice(["String", "Number", "CommaDelimitedList"])}
+        for k, v in (("Default", "5"), ("NoEcho", rng.choice([True, "true", False])), ("MaxLength", rng.choice([5, "7"])),
+                     ("MinValue", 0), ("AllowedValues", ["5", "6"]), ("AllowedPattern", "[0-9]+"), ("Description", "d")):
+            if rng.random() < 0.4:
+                p[k] = v
+        t["Parameters"]["P2"] = p
+        g.bump("model:Parameter")
+        for k in p:
+            g.bump({"NoEcho": "bool", "MaxLength": "posint", "MinValue": "int", "AllowedValues": "list", "Default": "any"}.get(k, "str"))
+    extra = {}
+    if rng.random() < 0.3:
+        extra["P1"] = rng.choice(["supplied", "TRUE", "7"])
+    return {"template": t, "extra": extra, "leaves": g.leaves}
